@@ -76,6 +76,10 @@ CHECKS = {
             "DESIGN.md §3 C19",
             "Full product of SCT-Expires {-1h,-3s,+3s,+1h} x SCT present/absent x receiver clock offset {0, +-3 s, +-1 h, +-400 d, +-20 y} x expiry check on/off x arrival order {FDT then object, object (in-band FTI) then FDT, object (cached) then FDT, FDT-cleanup-object, two objects one early one late} x object estimate-Expires {-1h,-3s,+3s,+1h} x 1- or 3-packet FDT (the last packet's SCT counts): delivered iff the estimate of the sender clock at the moment delivery starts is <= Expires (always with the check off); when not delivered no writer is obtained and nb_objects_error stays 0; with SCT the verdict is the same for every offset. Real Sender sessions (SCT on/off) are run under every offset as a sanity layer.",
             "Trusted: the two-clock model (DESIGN §3 C19), no transit delay, +-2 s around the expiry instant excluded as the property states."),
+    "C17": ("model_checking", "exhaustive traffic-event sequences to a depth bound + pumping (every event and ordered pair repeated) + per-object sweeps on the real MultiReceiver under a counting allocator and the virtual Instant", "seqx",
+            "DESIGN.md §3 C17",
+            "Alphabet of 14 traffic events (object packets without FTI / with in-band FTI / with the close flag / far SBN for fixed and fresh TOIs, first fragment of an FDT instance for fixed and fresh ids, complete FDT with FDT-only OTI, other TSI, other endpoint, object-timeout+cleanup, session-timeout+cleanup) x cache {3 packets, 64 kB} x max_objects_error {0,1,2}: all sequences to depth 4 (quick) / 5 (thorough); every event and ordered pair repeated max(400, 8*cache/100) times; four sweeps keeping one object undecodable or unwritable for 800/2000 packets. Oracle: failed-object list <= max_objects_error per session in every state; heap held for one object <= cache + two blocks + stated bookkeeping; no higher heap peak in the last quarter of a pumping run than in the quarter before; after both time-outs and cleanup nb_objects() = 0 and the heap is back to the baseline + 4 kB.",
+            "Trusted: counting allocator (receiver thread only, harness allocations excluded), bookkeeping allowances stated in the evidence; the number of objects in reception at once is bounded by the time-out, not by a configured count."),
 }
 
 NOT_YET = {}
